@@ -24,19 +24,22 @@ def check(repo, tier):
     def F(qual, rule, what, msg):
         fn = repo.fn(qual)
         return Finding('C17', rule, fn.where, what, msg, fn.file, fn.node.lineno)
-    for which, d, (ol, orr), thr in itertools.product(('tdmd_exact', 'tdmd_standard'), orders, ((True, True), (False, True), (True, False)), (0.0, 1e-6)):
+    grid = [(w_, d_, f_, t_, 'complex') for w_, d_, f_, t_ in itertools.product(('tdmd_exact', 'tdmd_standard'), orders, ((True, True), (False, True), (True, False)), (0.0, 1e-6))]
+    # real snapshot data (the usual case): the eigenpairs of the real reduced matrix are complex all the same
+    grid += [(w_, d_, (True, True), 0.0, 'real') for w_ in ('tdmd_exact', 'tdmd_standard') for d_ in (2, 3)]
+    for which, d, (ol, orr), thr, xdt in grid:
         if tier == 'quick' and thr and (ol, orr) != (True, True):
             continue
         if tier == 'quick' and d == 4 and ((ol, orr) != (True, True) or thr):
             continue
         entry = f'{MOD}.{which}'
-        scen = f'{which}(order={d}, ortho_l={ol}, ortho_r={orr}, threshold={thr})'
+        scen = f'{which}(order={d}, ortho_l={ol}, ortho_r={orr}, threshold={thr}' + (', real data' if xdt == 'real' else '') + ')'
 
         def body(sc):
             m = sc.atom('msnap')
             rows = [sc.mode(k) for k in range(d - 1)] + [m]
-            x = sc.tt('x', d, 'vec', row=rows)
-            y = sc.tt('y', d, 'vec', row=rows)
+            x = sc.tt('x', d, 'vec', row=rows, dtype=xdt)
+            y = sc.tt('y', d, 'vec', row=rows, dtype=xdt)
             sc.inputs = (x, y)
             sc.old = (list(x._attrs['cores']), list(y._attrs['cores']), list(x._attrs['ranks']), list(y._attrs['ranks']))
             return sc.call(entry, x, y, threshold=thr, ortho_l=ol, ortho_r=orr)
@@ -107,6 +110,12 @@ def check(repo, tier):
             if ycut:
                 run.add(F(entry, 'D1', 'y truncated', f'{scen}: {len(ycut)} decomposition(s) of (arrays computed from) the cores of y are cut by a threshold test: the reduced matrix and the modes are built '
                           'from a truncated y'))
+            # D2 dtype: the eigenvectors of the reduced matrix are complex in general; written into a real array they lose their imaginary parts
+            for e in sc.events('complex-loss'):
+                if e.get('fn') is not None and e['fn'].mod == MOD:
+                    where, cons, f_, ln = l2rules.ev_where(repo, e, {MOD})
+                    run.oblige('D2', (where, cons, 'dtype'), False)
+                    run.add(Finding('C17', 'D2', where, cons, f'{scen}: {e["detail"]} -- the modes of a complex-conjugate eigenvalue pair become U Re(w)', f_, ln))
             # D2 paired reorder
             if ok and isinstance(ev, Arr) and ev.ndim == 1:
                 lw = ev.legs[0]
